@@ -407,8 +407,9 @@ def check_cli(ctx, impls, case, tags=()):
 def gen_table_spec(rng, nonneg=False, big=False):
     classes = ("count", "smallcount", "dyadic") if nonneg else ("count", "smallcount", "dyadic", "neg")
     hi = 8 if big else 6
-    spec = core.gen_spec(rng, max_n=hi, max_m=hi + 1, min_n=0 if rng.random() < 0.04 else 1,
-                         min_m=0 if rng.random() < 0.04 else 1, classes=classes,
+    # the property's domain is the C01 domain: 1..N observations x 1..M samples (tables with an empty axis are
+    # C05's subject: their matrix is 0x0 whatever the IDs say, and per-ID operations refuse to answer)
+    spec = core.gen_spec(rng, max_n=hi, max_m=hi + 1, min_n=1, min_m=1, classes=classes,
                          density=rng.choice([0.2, 0.4, 0.6, 0.8, 1.0]))
     return spec
 
@@ -515,10 +516,10 @@ def run(ctx):
         dispatch(ctx, impls, case, ("fixed-corpus",))
     quick = ctx.quick()
     nw = max(1, getattr(ctx, "worker", (0, 1))[1])  # thorough totals are split over the worker processes
-    n_kernel = 1200 if quick else 32000 // nw
-    n_table = 1600 if quick else 40000 // nw
-    n_axis = 100 if quick else 2400 // nw
-    n_cli = 20 if quick else 320 // nw
+    n_kernel = 1200 if quick else 80000 // nw
+    n_table = 1600 if quick else 100000 // nw
+    n_axis = 100 if quick else 6000 // nw
+    n_cli = 20 if quick else 800 // nw
     # systematic kernel sweep: every named function x stored zeros x index order, on both implementations
     for impl in names:
         for fn in ELEMENTWISE + VECTORWISE + KERNEL_ONLY:
@@ -555,8 +556,6 @@ def run(ctx):
         case = {"level": "cli", "op": rng.choice(["norm", "pa"]), "spec": gen_table_spec(rng, nonneg=True),
                 "route": rng.choice(core.ROUTES), "axis": rng.choice(["sample", "observation"]),
                 "fmt": rng.choice(["json", "hdf5"]), "inplace": True}
-        if not case["spec"]["obs"] or not case["spec"]["samp"]:
-            continue
         for impl in names:
             dispatch(ctx, impls, dict(case, impl=impl))
     shutil.rmtree(TMP, ignore_errors=True)
